@@ -117,7 +117,7 @@ func pattern(n int, salt byte) []byte {
 }
 
 func runC13(c *vk.Ctx) {
-	c.Rule("boundary grid: item sizes {0,1,4095,4096,4097,3 buffers,64KiB+1} x chunkings x pre-existing file {absent, shorter, equal length, longer} x faults {none, item writer fails after k bytes (with a plain error and with io.EOF / io.ErrUnexpectedEOF / io.ErrShortWrite / ErrClosed while the channel is open / os.ErrClosed / EINTR / EAGAIN / wrapped forms), cancellation after k bytes, cancellation already in force when Persist is entered (item writer honouring / ignoring it), os write fails after a partial write, os sync fails, os close fails} with k over a boundary set x both item kinds, plus real segment and snapshot items; " +
+	c.Rule("boundary grid: item sizes {0,1,4095,4096,4097,3 buffers,64KiB+1} x chunkings x pre-existing file {absent, shorter, equal length, longer} x faults {none, item writer fails after k bytes (with a plain error and with io.EOF / io.ErrUnexpectedEOF / io.ErrShortWrite / ErrClosed while the channel is open / os.ErrClosed / EINTR / EAGAIN / wrapped forms), cancellation after k bytes, cancellation already in force when Persist is entered (item writer honouring / ignoring it), os write fails after a partial write, os sync fails, os close fails} with k over a boundary set x both item kinds, plus real segment and snapshot items, plus 8 goroutines persisting different items at once; " +
 		"oracle: after success the file holds exactly the written bytes and the os-level log (overlay hooks) shows a successful Sync on that file after its last Write/Truncate and before Persist returned; after failure or cancellation nothing is left under the item's name. distinct non-trivial = distinct (kind, size, pre-state, fault, placement) cases that executed")
 	c.Assume("os.File operations are observed through a go build -overlay copy of os/file.go and os/file_posix.go (no change to bluge); a returned Sync means durable content",
 		"directory entries are durable at operation completion (bluge never syncs the directory)")
@@ -374,6 +374,55 @@ func runC13(c *vk.Ctx) {
 		run(&c13Case{Kind: index.ItemKindSnapshot, Size: nb.Len(), Pre: pre, Fault: "none", RealItem: "snapshot"}, snap, nb.Bytes())
 		run(&c13Case{Kind: index.ItemKindSnapshot, Size: nb.Len(), Pre: pre, Fault: "os-write", FaultAt: 4097, RealItem: "snapshot"}, snap, nb.Bytes())
 		run(&c13Case{Kind: index.ItemKindSnapshot, Size: nb.Len(), Pre: pre, Fault: "os-close", RealItem: "snapshot"}, snap, nb.Bytes())
+	}
+	// several items persisted AT THE SAME TIME (the persister and the merger do that): each file must hold
+	// exactly its own bytes (whatever the directory shares between calls must not be shared between items)
+	{
+		var wg sync.WaitGroup
+		type out struct {
+			name string
+			want []byte
+			err  error
+		}
+		outs := make([][]out, 8)
+		base := id + 1
+		id += 8 * 24
+		for g := 0; g < 8; g++ {
+			wg.Add(1)
+			go func(g int) {
+				defer wg.Done()
+				for k := 0; k < 24; k++ {
+					myID := base + uint64(g*24+k)
+					kind := []string{index.ItemKindSegment, index.ItemKindSnapshot}[(g+k)%2]
+					size := []int{0, 1, 777, 4095, 4096, 4097, 9000, 70001}[(g+3*k)%8]
+					data := pattern(size, byte(g*31+k))
+					if k%3 == 1 {
+						_ = os.WriteFile(filepath.Join(dir, fmt.Sprintf("%012x%s", myID, kind)), pattern(size+100, 0x11), 0o600)
+					}
+					err := fsd.Persist(kind, myID, &c13Item{data: data, chunk: []int{1 << 20, 4096, 1000, 13}[k%4], failAfter: -1, cancelAt: -1}, make(chan struct{}))
+					outs[g] = append(outs[g], out{fmt.Sprintf("%012x%s", myID, kind), data, err})
+				}
+			}(g)
+		}
+		wg.Wait()
+		for _, l := range outs {
+			for _, o := range l {
+				c.Eval(1)
+				c.Event("concurrent_persists", 1)
+				got, rerr := os.ReadFile(filepath.Join(dir, o.name))
+				cs := &c13Case{Kind: filepath.Ext(o.name), Size: len(o.want), Fault: "none", Pre: "concurrent"}
+				switch {
+				case o.err != nil:
+					cs.Err = o.err.Error()
+					c.Violate("persist-unexpected-error", fmt.Sprintf("8 goroutines persisting different items at once: %s: %v", o.name, o.err), cs)
+				case rerr != nil || !bytes.Equal(got, o.want):
+					c.Violate("persisted-file-not-exact", fmt.Sprintf("8 goroutines persisting different items at once: %s holds %d bytes (read error %v), %d were written, content equal: %v", o.name, len(got), rerr, len(o.want), bytes.Equal(got, o.want)), cs)
+				default:
+					c.Distinct(fmt.Sprintf("concurrent|%s|%d", cs.Kind, cs.Size))
+				}
+				_ = os.Remove(filepath.Join(dir, o.name))
+			}
+		}
 	}
 	// a pre-existing item that a reader still holds (shared lock, as the directory's Load takes it): a
 	// Persist under that name cannot get its exclusive lock. Whatever it reports, no PARTIAL file may be
